@@ -149,13 +149,24 @@ def run_groups(prop, groups, tier, workdir, only_harness=None):
                     infra.append("harness %s: status %s" % (h["name"], r["status"]))
                     continue
                 failed_checks += max(r["failed"], 1)
-                name = "kani::%s::%s" % (h["name"], re.sub(r"\s+", " ", fc[0]["desc"])[:120])
-                failed.append({"name": name, "tags": h["tags"], "kind": h["kind"], "harness": h["name"], "group": g, "N": n,
-                               "rendered": "\n".join("%s  @ %s" % (f["desc"], f["where"]) for f in fc), "clause": h.get("function"), "fn": h.get("function")})
+                # one violation entry per property the failed checks are tagged with ("[Cxx] ..." message prefix);
+                # untagged failures (pointer checks, panics inside the library) are memory-safety / panic-freedom: C01
+                by_prop = {}
+                for f in fc:
+                    if "unwinding assertion" in f["desc"]:
+                        continue
+                    m2 = re.findall(r"\[(C\d+)\]", f["desc"])
+                    props = m2 if m2 else (["C01"] if "C01" in h["tags"] else h["tags"])
+                    for p_ in props:
+                        by_prop.setdefault(p_, []).append(f)
+                for p_, fl in by_prop.items():
+                    name = "kani::%s::%s" % (h["name"], re.sub(r"\s+", " ", fl[0]["desc"])[:120])
+                    failed.append({"name": name, "tags": [p_], "kind": h["kind"], "harness": h["name"], "group": g, "N": n,
+                                   "rendered": "\n".join("%s  @ %s" % (f["desc"], f["where"]) for f in fl), "clause": h.get("function"), "fn": h.get("function")})
             if len(samples) < 3:
                 samples.append({"obligation": "kani::" + h["name"], "function": h.get("function"), "checks": r["checks"], "status": r["status"], "bound": ev["bounded"]})
     # concrete counterexamples for failed harnesses (replay channel)
-    for e in failed[:4]:
+    for e in [x for x in failed if prop in x["tags"]][:3]:
         try:
             e["counterexample"] = playback(e, allg[e["group"]], tier, workdir)
         except Exception as ex:  # never turn a violation into a crash
